@@ -13,7 +13,7 @@ RULE = ("smooth networks (mass action orders 1-4 with repeats, Hill families wit
 ASSUMPTIONS = ["sympy differentiation of vlib/ref.py's rate equations is the analytic derivative",
                "error bound: h^4/30*M5, h^2/6*M3, h/2*M2 (x2) + 1e-9(1+|entry|) for np.round(.,10) + 50 eps max|f|/h"]
 RUN_OPTS = {"batch_size": 4, "timeout_per_case": 120.0}
-MINIMA = {"*": {"jacobian_entries": 1500, "sensitivity_entries": 1500, "nontrivial_entries": 300, "contract_evaluations": 200, "passes_after_inplace_update": 20, "evaluations_at_nonzero_time": 40}}
+MINIMA = {"*": {"jacobian_entries": 1500, "sensitivity_entries": 1500, "nontrivial_entries": 300, "contract_evaluations": 200, "passes_after_inplace_update": 20, "evaluations_at_nonzero_time": 40, "helper_object_evaluations": 100}}
 METHODS = ["fourth_order_central_difference", "central_difference", "forward_difference", "backward_difference"]
 
 
@@ -174,6 +174,20 @@ def run_case(case):
         return coef * mx
 
     import random as _random
+    helper = None
+    try:
+        from bioscrape.analysis import SensitivityAnalysis
+        from bioscrape.simulator import py_simulate_model
+        helper = SensitivityAnalysis(M)
+        other = specmod.build_model(dict(sp, params={k_: (v_ * 1.9 + 0.3 if isinstance(v_, (int, float)) else v_) for k_, v_ in sp["params"].items()}), "ctor")
+        SensitivityAnalysis(other)
+        py_get_jacobian(other, np.array([1.5] * len(species)))
+        try:
+            py_simulate_model(np.linspace(0, 0.05, 3), Model=other, stochastic=False)
+        except Exception:
+            pass
+    except Exception as e:
+        viol.append({"key": "C18/helper-raises", "msg": "building SensitivityAnalysis helpers raised %r" % (e,)})
     passes = [None] + list(case.get("updates", []))
     for pi, upd in enumerate(passes):
       if upd is not None:
@@ -204,10 +218,17 @@ def run_case(case):
           sub_all.update({X[s]: st[s] for s in species})
           sub_all[tsym] = tkw.get("time", 0.0)
           fmax = max(abs(float(f[s].subs(sub_all))) for s in species) if species else 0.0
-          for method in METHODS:
+          # second route: a SensitivityAnalysis helper object that was built at the start of the case and is used only now, after
+          # helpers for another model were built and another model was simulated deterministically in between
+          # (the helper goes first: a function-route call for this model would make this model the most recently used one again)
+          routes = (["helper"] if (helper is not None and pi == 0 and si == 0) else []) + ["function"]
+          for method in [(m_, r_) for r_ in routes for m_ in METHODS]:
+              method, route = method
               before = dict(M.get_parameter_dictionary())
               try:
-                  J = py_get_jacobian(M, xs.copy(), method=method, **tkw)
+                  J = py_get_jacobian(M, xs.copy(), method=method, **tkw) if route == "function" else helper.compute_J(xs.copy(), method=method, **tkw)
+                  if route == "helper":
+                      C["helper_object_evaluations"] += 1
               except Exception as e:
                   viol.append({"key": "C18/jacobian-raises", "msg": "py_get_jacobian(method=%s) raised %r" % (method, e)})
                   continue
@@ -232,7 +253,8 @@ def run_case(case):
               for pname in pdict:
                   before = dict(M.get_parameter_dictionary())
                   try:
-                      Z = py_get_sensitivity_to_parameter(M, xs.copy(), pname, method=method, **tkw)
+                      Z = (py_get_sensitivity_to_parameter(M, xs.copy(), pname, method=method, **tkw) if route == "function"
+                           else helper.compute_Zj(xs.copy(), pname, method=method, **tkw))
                   except Exception as e:
                       viol.append({"key": "C18/sensitivity-raises", "msg": "py_get_sensitivity_to_parameter(%s, method=%s) raised %r" % (pname, method, e)})
                       continue
